@@ -125,6 +125,8 @@ func ruleJoinBeforeHandover(c *eng.Ctx) {
 func runC02(c *eng.Ctx) {
 	c.Rule("R05.8", "K2")
 	ruleRecoveredEpochStartsAtItsFirstMessage(c)
+	c.Rule("R05.5", "K2")
+	ruleEpochHistoryIsReadInFileOrder(c)
 	c.Rule("R02.4", "K4")
 	ruleReplicatorOwnsItsHeaderBuffer(c)
 	ruleReplicationRequestCheckedAndServedInOneSection(c)
